@@ -126,17 +126,17 @@ GNET_STUB_VALUES = {"github.com/panjf2000/gnet/v2/pkg/socket.maxListenerBacklog"
 
 PROPS["C15"] = {
     "level": "other",
-    "level_text": "Symbolic execution of the real load-balancer code on N real eventloop objects: N concrete per path (1..16 quick, 1..256 thorough), round-robin cursor (< 2^63), per-loop connection counts and the remote-address string (CRC32 as an uninterpreted pure function) symbolic; obligations discharged by z3.",
+    "level_text": "Symbolic execution of the real load-balancer code on N real eventloop objects: N concrete per path (1..16 quick, 1..128 thorough), round-robin cursor (< 2^63), per-loop connection counts and the remote-address string (CRC32 as an uninterpreted pure function) symbolic; obligations discharged by z3.",
     "level_note": "Trusted: go/ssa lowering, SSA->SMT translation (counterexamples replayed natively), z3. hash/crc32.ChecksumIEEE is an uninterpreted pure function (any uint32, equal for equal input). That the loop chosen by next() is the loop whose callbacks run is checked for accept0/accept in the loop-step unit (C04/C07 harness family).",
     "design_ref": "DESIGN.md section 5 (C15)",
     "explanation": "Real next()/register()/hash() executed from go/ssa for every loop count within the bound.",
-    "bounds": {"loops": "N in 1..16 (quick) / 1..256 (thorough)", "round_robin_cursor": "< 2^63", "k*N unrolling": "N<=4, k<=3", "address": "<= 64 bytes"},
+    "bounds": {"loops": "N in 1..16 (quick) / 1..128 (thorough)", "round_robin_cursor": "< 2^63", "k*N unrolling": "N<=4, k<=3", "address": "<= 64 bytes"},
     "outside": ["32-bit int targets (negating MinInt32)", "cursor >= 2^63"],
     "assumptions": ["crc32 uninterpreted"],
     "units": [
         {"name": "gnet-lb", "pkgdir": ".", "files": ["harness/gnet/c15_lb.go"], "mode": "int", "unwind": 300, "contracts": ["byteslice", "ringbuffer"],
          "stub_values": GNET_STUB_VALUES,
-         "cfg": {"vcfg": {"maxN": 16, "maxNcount": 4, "maxNlc": 6}}, "cfg_thorough": {"vcfg": {"maxN": 64, "maxNcount": 4, "maxNlc": 8}}},
+         "cfg": {"vcfg": {"maxN": 16, "maxNcount": 4, "maxNlc": 6}}, "cfg_thorough": {"vcfg": {"maxN": 128, "maxNcount": 4, "maxNlc": 8}}},
     ],
 }
 
